@@ -12,13 +12,14 @@ stay registered.
 
 import asyncio
 import itertools
+import os
 import shutil
 import tempfile
 from typing import Any, Dict, List, Optional
 
 from hypothesis import strategies as st
 
-from ..core import CaseResult, Family, Violation, pick
+from ..core import CaseResult, Family, HarnessError, Violation, pick
 from ..engines import memwire
 from ..engines.memwire import Pair, asyncssh
 
@@ -1182,4 +1183,279 @@ FAMILIES += [
                              'connect-raised', 'term:cclose', 'term:cabort',
                              'auth:wrong-password']},
            case_timeout=120, timeout_is_violation=True),
+]
+
+
+# ------------------------------------------------------------------ x11 ---
+#
+# X11 forwarding is the one piece of per-connection state which lives
+# outside the channel table (a listener on each side, keyed by channel and
+# by authentication cookie).  It only exists with real sockets, so this
+# family runs on an ordinary event loop over 127.0.0.1: an X client connects
+# to the display the server set up, the client relays it to a stand-in X
+# server, and then the SSH connection ends while the session is still open.
+
+X11_WAIT = 8.0
+
+
+def _xauth_cookie(path: str, dpynum: str) -> Optional[bytes]:
+    """The cookie the server stored for its display (Xauthority file: five
+    length-prefixed fields per entry, lengths 16 bit big endian)"""
+
+    try:
+        with open(path, 'rb') as f:
+            data = f.read()
+    except OSError:
+        return None
+
+    pos = 0
+    found = None
+
+    while pos + 2 <= len(data):
+        pos += 2
+        fields = []
+
+        for _ in range(4):
+            n = int.from_bytes(data[pos:pos + 2], 'big')
+            fields.append(data[pos + 2:pos + 2 + n])
+            pos += 2 + n
+
+        if fields[1] == dpynum.encode():
+            found = fields[3]
+
+    return found
+
+
+async def _x11_scenario(case, labels, errors) -> bool:
+    log: List[Any] = []
+    tmp = tempfile.mkdtemp(prefix='c09x-')
+    started = asyncio.Event()
+    procs: List[Any] = []
+    sconns: List[Any] = []
+    xgot: List[bytes] = []
+    acceptor = xsrv = conn = None
+
+    class Server(Owner, asyncssh.SSHServer):
+        def __init__(self):
+            Owner.__init__(self, log, 'S')
+
+        def connection_made(self, conn_):
+            sconns.append(conn_)
+            Owner.connection_made(self, conn_)
+
+        def begin_auth(self, username):
+            return False
+
+    class Client(Owner, asyncssh.SSHClient):
+        def __init__(self):
+            Owner.__init__(self, log, 'C')
+
+    class Sess(asyncssh.SSHClientSession):
+        def __init__(self, name):
+            self.name = name
+
+        def connection_made(self, chan):
+            log.append((self.name, 'connection_made'))
+
+        def connection_lost(self, exc):
+            log.append((self.name, 'connection_lost',
+                        type(exc).__name__ if exc else None))
+
+    async def handler(process):
+        procs.append(process)
+
+        if len(procs) == case['sessions']:
+            started.set()
+
+        await process.stdin.read()
+
+    async def xserver(reader, writer):
+        # stand-in X server: takes the connection setup, answers
+        try:
+            xgot.append(await reader.read(200))
+            writer.write(b'XREPLY')
+            await writer.drain()
+            await reader.read()
+        except OSError:
+            pass
+        finally:
+            writer.close()
+
+    async def must(aw, what):
+        try:
+            return await asyncio.wait_for(aw, 20)
+        except asyncio.TimeoutError:
+            raise HarnessError('C09 x11 rig: %s did not finish' %
+                               what) from None
+
+    try:
+        acceptor = await must(asyncssh.listen(
+            '127.0.0.1', 0, server_factory=Server,
+            server_host_keys=[memwire.key('host')], process_factory=handler,
+            x11_forwarding=True,
+            x11_auth_path=os.path.join(tmp, 'sxauth')), 'listen')
+        xsrv = await asyncio.start_server(xserver, '127.0.0.1', 0)
+        xport = xsrv.sockets[0].getsockname()[1]
+
+        if xport < 6000:
+            raise HarnessError('no display number for port %d' % xport)
+
+        conn = await must(asyncssh.connect(
+            '127.0.0.1', acceptor.get_port(), known_hosts=None,
+            username='u', client_keys=None, config=None, agent_path=None,
+            client_factory=Client), 'connect')
+        chans = []
+
+        for i in range(case['sessions']):
+            chan, _ = await must(conn.create_session(
+                lambda i=i: Sess('sess%d' % i), 'cmd', x11_forwarding=True,
+                x11_display='127.0.0.1:%d' % (xport - 6000),
+                x11_auth_path=os.path.join(tmp, 'cxauth'),
+                x11_single_connection=case['single']), 'session')
+            chans.append(chan)
+
+        await must(started.wait(), 'server sessions')
+        xclients = []
+
+        for k in range(case['xclients']):
+            proc = procs[k % len(procs)]
+            display = proc.channel.get_x11_display()
+
+            if not display:
+                raise Violation('x11-setup', 'no display on the server side',
+                                'x11:no-display')
+
+            dpynum = display.split(':')[1].split('.')[0]
+            cookie = _xauth_cookie(os.path.join(tmp, 'sxauth'), dpynum)
+
+            if cookie is None:
+                raise HarnessError('no cookie for display %s' % display)
+
+            reader, writer = await must(asyncio.open_connection(
+                'localhost', 6000 + int(dpynum)), 'X client connect')
+            proto = b'MIT-MAGIC-COOKIE-1'
+            pad = lambda b: b + b'\0' * (-len(b) % 4)   # noqa: E731
+            writer.write(b'l\0' + (11).to_bytes(2, 'little') +
+                         (0).to_bytes(2, 'little') +
+                         len(proto).to_bytes(2, 'little') +
+                         len(cookie).to_bytes(2, 'little') + b'\0\0' +
+                         pad(proto) + pad(cookie) + b'XDATA')
+            xclients.append((reader, writer))
+
+            try:
+                got = await asyncio.wait_for(reader.read(6), X11_WAIT)
+            except asyncio.TimeoutError:
+                got = None
+
+            if got == b'XREPLY':
+                labels.add('x11-used')
+            elif k == 0 or not case['single']:
+                raise Violation('x11-relay', 'X client %d got %r through '
+                                'the forwarding' % (k, got), 'x11:relay')
+            else:
+                labels.add('x11-second-client-refused')
+
+        end = case['end']
+        labels.add('end:' + end)
+
+        if end == 'cclose':
+            conn.close()
+        elif end == 'cabort':
+            conn.abort()
+        elif end == 'sabort':
+            sconns[0].abort()
+        elif end == 'sclose':
+            sconns[0].close()
+        elif end == 'sdisconnect':
+            sconns[0].disconnect(11, 'bye')
+
+        hung = False
+
+        try:
+            await asyncio.wait_for(conn.wait_closed(), X11_WAIT)
+        except asyncio.TimeoutError:
+            hung = True
+
+        for _ in range(20):
+            if any(e[0] == 'S' and e[1] == 'connection_lost' for e in log):
+                break
+            await asyncio.sleep(0.05)
+
+        if errors:
+            raise Violation('loop-error', repr(errors[0])[:500],
+                            'x11:loop-error')
+
+        if hung:
+            raise Violation('hung-waiter', 'conn.wait_closed() still '
+                            'pending %.0f s after %s with an X11 forwarding '
+                            'in use' % (X11_WAIT, end),
+                            'hung:x11:wait_closed')
+
+        check_log(log)
+
+        # pylint: disable=protected-access
+        for name, c_ in (('client', conn), ('server', sconns[0])):
+            if c_._channels:
+                raise Violation('channel-left-registered', '%s connection '
+                                'still has channels' % name,
+                                'channel-left:' + name)
+
+        for reader, writer in xclients:
+            writer.close()
+
+        return bool(case['xclients'])
+    finally:
+        for obj in (conn,) + tuple(sconns):
+            if obj is not None:
+                obj.abort()
+
+        for obj in (acceptor, xsrv):
+            if obj is not None:
+                obj.close()
+
+        await asyncio.sleep(0)
+        shutil.rmtree(tmp, ignore_errors=True)
+
+
+def run_x11(case) -> CaseResult:
+    loop = asyncio.new_event_loop()
+    errors: List[Any] = []
+    loop.set_exception_handler(lambda l, ctx: errors.append(ctx))
+    asyncio.set_event_loop(loop)
+    labels = {'single' if case['single'] else 'multi',
+              'xclients:%d' % case['xclients']}
+
+    try:
+        nontrivial = loop.run_until_complete(
+            _x11_scenario(case, labels, errors))
+        return CaseResult(sorted(labels), nontrivial)
+    finally:
+        try:
+            tasks = [t for t in asyncio.all_tasks(loop) if not t.done()]
+
+            for t in tasks:
+                t.cancel()
+
+            if tasks:
+                loop.run_until_complete(asyncio.wait(tasks, timeout=2))
+
+            loop.run_until_complete(loop.shutdown_asyncgens())
+        finally:
+            asyncio.set_event_loop(None)
+            loop.close()
+
+
+def x11_cases(tier: str):
+    for end in ('cclose', 'cabort', 'sabort', 'sclose', 'sdisconnect'):
+        for single in (True, False):
+            for sessions, xclients in ((1, 0), (1, 1), (1, 2), (2, 2)):
+                yield {'end': end, 'single': single, 'sessions': sessions,
+                       'xclients': xclients}
+
+
+FAMILIES += [
+    Family('x11', run_x11, enumerate=x11_cases, exhaustive=True,
+           required={'all': ['x11-used', 'single', 'multi', 'end:cclose',
+                             'end:sabort']},
+           case_timeout=120),
 ]
